@@ -129,15 +129,20 @@ func runC17(c *Ctx) {
 			continue
 		}
 		seen[name] = true
-		for _, bound := range []vrt.Budget{{F: f}, {F: 1, P: p, Total: p + 1}} {
+		for bi, bound := range []vrt.Budget{{F: f}, {F: 1, P: p, Total: p + 1}, {F: f}} {
 			reqs, bound := reqs, bound
+			manual := bi == 2 // third pass: an application-owned redial loop around a bare RetryClient
+			mode := ""
+			if manual {
+				mode = "manual/"
+			}
 			var r *rcRun
 			sc := &vrt.Scenario{
-				Name:  fmt.Sprintf("C17/%s/%s", bound, name),
+				Name:  fmt.Sprintf("C17/%s%s/%s", mode, bound, name),
 				Bound: bound,
 				Cfg:   vrt.Config{Horizon: int64(600 * time.Second)},
 				Body: func() {
-					rcExecuteInto(&rcCfg{Reqs: reqs, Faults: faults, KeepSession: true, PushAfterAck: push}, &r)
+					rcExecuteInto(&rcCfg{Reqs: reqs, Faults: faults, KeepSession: true, PushAfterAck: push, Manual: manual}, &r)
 					c17Oracle(r)
 				},
 				Observe: func() uint64 {
